@@ -139,25 +139,23 @@ def c02(tier, rep):
     rep.add_tlc("MC_Table", res, "table derived from Grammar!Rules; ASSUME Deterministic, EofFirstOtherLast, StackDiscipline, Sizes")
     for d in T.compare_grammar(dump, *T.berp_grammar()[:3]):
         rep.violation({"kind": "grammar-transcription"}, {"engine": "table", "what": "Grammar.tla Rules/Hints differ from /repo/gherkin.berp (the specification is stale)", "detail": d})
-    # (b) bisimulation with parser.py and the five sibling generated parsers
-    progs = []
+    # (b) the siblings' generated parsers (read as text) and parser.py are bisimilar to the derived table.  For parser.py the authority is its
+    #     BEHAVIOUR: the machine is learned through Parser.match_token (d); its text is read as well, but a parser.py that is no longer of the
+    #     generated shape (or is read differently although it behaves the same) is not an alarm.
+    progs = [T.extract_sibling(l) for l in T.SIBLINGS]
+    static_py = None
     try:
-        progs.append(T.extract_python())
-    except T.NotExtractable as e:
-        rep.assumptions.append(f"parser.py not of the generated shape ({e}); static comparison skipped, learned behaviour (c)/(d) decides")
-    for l in T.SIBLINGS:
-        progs.append(T.extract_sibling(l))
-    pairs_py = None
+        static_py = T.bisimulate(dump, T.extract_python())
+    except Exception as e:  # noqa: BLE001 -- NotExtractable or a shape the reader does not understand
+        rep.assumptions.append(f"parser.py not read statically ({type(e).__name__}: {str(e)[:80]}); the learned machine decides")
     for p in progs:
         pairs, bad = T.bisimulate(dump, p)
-        if p["lang"] == "python":
-            pairs_py = pairs
         rep.case(("program", p["lang"]))
         for b in bad[:5]:
             rep.violation({"kind": "table-mismatch", "program": p["lang"]},
                           {"engine": "bisimulation", "what": f"{p['lang']} parser differs from the table derived from gherkin.berp", "detail": b})
-    rep.extra["programs"] = len(progs)
-    rep.sample({"program": "python/gherkin/parser.py", "states": len(progs[0]["states"]), "transitions": sum(len(s["trans"]) for s in progs[0]["states"].values())})
+    rep.extra["programs"] = len(progs) + 1
+    rep.sample({"program": "java/.../Parser.java", "states": len(progs[0]["states"]), "transitions": sum(len(s["trans"]) for s in progs[0]["states"].values())})
     # (c) language equivalence, exact
     with Scratch("lang") as sc:
         res = run_tlc(sc, "MC_Language", workers=4, timeout=600, extra=["-continue"])
@@ -166,15 +164,20 @@ def c02(tier, rep):
     rep.add_tlc("MC_Language", res, "parser table x grammar NFA product, history hidden: all lengths")
     for inv in sorted(set(res.invariant_violations)):
         rep.violation({"kind": "spec-invariant", "invariant": inv}, {"engine": "MC_Language", "what": f"{inv} violated", "tlc_tail": res.out[-3000:]})
-    # (d) every transition of the real parser.py, driven through Parser.match_token
-    if pairs_py is not None:
-        cases, bad, cov = L.drive_transitions(dump, pairs_py)
-        rep.extra["transitions_driven"] = cases
-        rep.extra["transitions_covered"] = len(cov)
-        rep.traces += cases
-        for b in bad[:10]:
-            rep.violation({"kind": "transition"}, {"engine": "drive", "what": "Parser.match_token differs from the derived table", "detail": b})
-        rep.sample({"driven": "every (position, kind, oracle)", "cases": cases, "transitions_covered": len(cov)})
+    # (d) parser.py as a program: its state machine learned through Parser.match_token and compared with the derived table
+    pairs_py, bad, cases, cov = L.learn_and_compare(dump)
+    rep.case(("program", "python (learned)"))
+    rep.extra["transitions_driven"] = cases
+    rep.extra["transitions_covered"] = len(cov)
+    rep.extra["python_states_learned"] = len(set(pairs_py.values()))
+    rep.traces += cases
+    for b in bad[:10]:
+        rep.violation({"kind": "transition"}, {"engine": "learned-table", "what": "the Python parser's machine (learned through Parser.match_token) differs from the derived table", "detail": b})
+    rep.sample({"driven": "every (position, kind, oracle)", "cases": cases, "transitions_covered": len(cov), "states": len(set(pairs_py.values()))})
+    if static_py is not None and static_py[1] and not bad:
+        rep.assumptions.append("static reading of parser.py disagrees with the derived table although the learned machine agrees (parser.py is not of the generated shape?): " + str(static_py[1][0])[:200])
+    elif static_py is not None:
+        rep.extra["parser_py_static_reading_agrees"] = not static_py[1]
     # (e) whole kind sequences through the real Parser.parse
     for (n, alpha, prefix) in ([(4, "Kinds", "NoPrefix"), (4, "LaAlphabet", "ScenarioPrefix")] if tier == "quick" else [(5, "Kinds", "NoPrefix"), (6, "LaAlphabet", "ScenarioPrefix")]):
         cnt, bad, res, behs = L.replay_sequences(n, alpha, prefix, max_errs=1)
